@@ -471,6 +471,9 @@ def handleBase (case obs : List String) : String × String :=
     else if k.startsWith "clih." then handleCliHttp (k.drop 5).toString ts obs
     else if k.startsWith "pair." then handlePair (k.drop 5).toString ts obs
     else if k.startsWith "gen." then handleGen (k.drop 4).toString ts obs
+    -- `stk.`: the `gen.` experiment inside tonic's own stacks (real `Channel`, `transport::Server`,
+    -- Routes, their middleware per the last token): same expectation, the stacks must be invisible
+    else if k.startsWith "stk." then handleGen (k.drop 4).toString ts.dropLast obs
     else bad
   | _ => bad
 
